@@ -49,6 +49,18 @@ def main(argv=None):
     except core.HarnessError as e:
         print("HARNESS-ERROR property=%s %s" % (pid, e))
         return 2
+    if os.environ.get('VERIF_DEBUG'):
+        import collections
+        h = collections.Counter()
+        ex = {}
+        for part, idx, case, detail in ctx.violations:
+            key = (part, detail.get('kind'), tuple(sorted(k for k in case if k not in ('freq', 'start'))) if isinstance(case, dict) else '',
+                   case.get('freq') if isinstance(case, dict) else '')
+            h[key] += 1
+            ex.setdefault(key, (case, detail))
+        for key, n in sorted(h.items(), key=lambda x: -x[1])[:int(os.environ.get('VERIF_DEBUG') or 1)]:
+            print('DEBUG', n, key)
+            print('      ', json.dumps(codec.enc(ex[key]), sort_keys=True)[:330])
     print("%s tier=%s seed=%d evaluations=%d transitions=%d nontrivial=%d capped=%d "
           "violations_raw=%d exhaustive=%s wall=%.1fs -> exit %d"
           % (pid, ctx.tier, seed, ctx.counts['evaluations'], ctx.counts['transitions'],
